@@ -1,6 +1,8 @@
 import SedVerif.Proofs.Rank
 import SedVerif.Proofs.Fit
 import Mathlib.Tactic.Ring
+import Mathlib.Tactic.Linarith
+import Mathlib.Tactic.Positivity
 /-!
 # C04 — results are ranked by chi² and every row describes one model
 
@@ -209,6 +211,222 @@ theorem C04_fit_rows (big : K) (ln1m : K → K) (lo hi : K) (lobs : List (LogObs
   rw [hrow]
   simp [rowAt, x, fitRowsUnsorted2, List.getElem?_eq_getElem hm', fit2Full]
 
+/-! ### distance-dependent mode: `fit3Ext`, `fitRows3` -/
+
+theorem mkPts_length (lobs : List (LogObs K)) (mfs ks : List K) (h1 : mfs.length = lobs.length)
+    (h2 : ks.length = lobs.length) : (mkPts lobs mfs ks).length = lobs.length := by
+  induction lobs generalizing mfs ks with
+  | nil => simp [mkPts]
+  | cons o os ih =>
+    cases mfs with
+    | nil => simp at h1
+    | cons m ms =>
+      cases ks with
+      | nil => simp at h2
+      | cons k kt =>
+        simp only [List.length_cons, Nat.add_right_cancel_iff] at h1 h2
+        simp [mkPts, ih ms kt h1 h2]
+
+theorem predicted2_length (a s : K) (ps : List (Pt K)) (mfs : List K) (h : mfs.length = ps.length) :
+    (predicted2 a s ps mfs).length = ps.length := by
+  induction ps generalizing mfs with
+  | nil => simp [predicted2]
+  | cons p ps ih =>
+    cases mfs with
+    | nil => simp at h
+    | cons m ms =>
+      simp only [List.length_cons, Nat.add_right_cancel_iff] at h
+      simp [predicted2, ih ms h]
+
+/-- `fit3Ext` spelled out: everything is read at the position `np.argmin` returns -/
+theorem fit3Ext_eq (big : K) (ln1m : K → K) (lo hi : K) (logd : List K) (pss : List (List (Pt K)))
+    (ext : List Bool) :
+    fit3Ext big ln1m lo hi logd pss ext
+      = (((fit3PerDist big ln1m lo hi pss).getD
+            (argminFirstEF (maskChi (fit3PerDist big ln1m lo hi pss) ext)).1 (0, 0)).1,
+         logd.getD (argminFirstEF (maskChi (fit3PerDist big ln1m lo hi pss) ext)).1 0,
+         (argminFirstEF (maskChi (fit3PerDist big ln1m lo hi pss) ext)).2,
+         (argminFirstEF (maskChi (fit3PerDist big ln1m lo hi pss) ext)).1) := by
+  rcases h : argminFirstEF (maskChi (fit3PerDist big ln1m lo hi pss) ext) with ⟨bi, bc⟩
+  simp only [fit3Ext, h]
+
+/-- a model of an aperture-dependent package as `Models.fit` sees it: at least one trial distance, and
+    at every trial distance one log flux per band (the shape of `log_fluxes_mJy[m]`) -/
+def WFModel3 (lobs : List (LogObs K)) (ks : List K) (md : ModelRow3 K) : Prop :=
+  md.mfss ≠ [] ∧ ks.length = lobs.length ∧ ∀ mf ∈ md.mfss, mf.length = lobs.length
+
+/-- **C04 (predicted fluxes, distance-dependent mode).** For a well-formed model and a distance grid
+    with one `log10 d` per trial distance, `np.argmin` returns an existing trial distance `best`, and
+    *everything the row reports is read at that one index*: the scale is `logd[best]`, `A_V` is the
+    clipped one-parameter optimum at that distance, chi² is the chi² there (`+inf` if the model is
+    resolved there), and the stored fluxes are, band by band, the model's own log10 flux at that
+    distance plus `A_V·k_j`.  With `lg (x·y) = lg x + lg y`, a log flux built as
+    `lg (F_j · (1/d)²)` (what C02's `fluxAt` produces; `F_j` = the aperture-interpolated flux at
+    1 kpc) and `scale = lg d`, the stored value is `lg F_j + A_V·k_j − 2·scale`: the distance scaling
+    implied by the reported scale. -/
+theorem C04_predicted3 (big : K) (ln1m : K → K) (lo hi : K) (logd : List K) (lobs : List (LogObs K))
+    (ks : List K) (md : ModelRow3 K) (hwf : WFModel3 lobs ks md) (hlogd : logd.length = md.mfss.length) :
+    ∃ mf sc, (fit3Ext big ln1m lo hi logd (pssOf lobs ks md.mfss) md.ext).2.2.2 < md.mfss.length ∧
+      md.mfss[(fit3Ext big ln1m lo hi logd (pssOf lobs ks md.mfss) md.ext).2.2.2]? = some mf ∧
+      logd[(fit3Ext big ln1m lo hi logd (pssOf lobs ks md.mfss) md.ext).2.2.2]? = some sc ∧
+      (fit3Ext big ln1m lo hi logd (pssOf lobs ks md.mfss) md.ext).2.1 = sc ∧
+      (fit3Ext big ln1m lo hi logd (pssOf lobs ks md.mfss) md.ext).1
+        = clipAv lo hi (optAv (mkPts lobs mf ks)) ∧
+      (fit3Ext big ln1m lo hi logd (pssOf lobs ks md.mfss) md.ext).2.2.1
+        = (if md.ext.getD (fit3Ext big ln1m lo hi logd (pssOf lobs ks md.mfss) md.ext).2.2.2 false then EF.pinf
+           else EF.fin (chi2 big ln1m (clipAv lo hi (optAv (mkPts lobs mf ks))) 0 (mkPts lobs mf ks))) ∧
+      (predictedRow3Ext big ln1m lo hi lobs ks md).length = lobs.length ∧
+      (∀ (j : Nat) (f k : K), mf[j]? = some f → ks[j]? = some k →
+        (predictedRow3Ext big ln1m lo hi lobs ks md)[j]?
+          = some (f + (fit3Ext big ln1m lo hi logd (pssOf lobs ks md.mfss) md.ext).1 * k)) ∧
+      (∀ (lg : K → K), (∀ x y : K, 0 < x → 0 < y → lg (x * y) = lg x + lg y) →
+        ∀ (j : Nat) (f0 d k : K), 0 < f0 → 0 < d → sc = lg d →
+          mf[j]? = some (lg (f0 * ((1 / d) * (1 / d)))) → ks[j]? = some k →
+          (predictedRow3Ext big ln1m lo hi lobs ks md)[j]?
+            = some (lg f0 + (fit3Ext big ln1m lo hi logd (pssOf lobs ks md.mfss) md.ext).1 * k
+                    - 2 * (fit3Ext big ln1m lo hi logd (pssOf lobs ks md.mfss) md.ext).2.1)) := by
+  obtain ⟨hne, hks, hlen⟩ := hwf
+  have hper : (fit3PerDist big ln1m lo hi (pssOf lobs ks md.mfss)).length = md.mfss.length := by
+    simp [fit3PerDist, pssOf]
+  have hchne : maskChi (fit3PerDist big ln1m lo hi (pssOf lobs ks md.mfss)) md.ext ≠ [] := by
+    intro h
+    have := congrArg List.length h
+    rw [maskChi_length, hper] at this
+    exact hne (List.length_eq_zero_iff.mp (by simpa using this))
+  obtain ⟨hbi, hbc⟩ := argminFirstEF_spec _ hchne
+  rw [maskChi_length, hper] at hbi
+  -- the predicted row does not depend on `logd`
+  have hpredeq : predictedRow3Ext big ln1m lo hi lobs ks md
+      = predicted2 (fit3Ext big ln1m lo hi logd (pssOf lobs ks md.mfss) md.ext).1 0
+          ((pssOf lobs ks md.mfss).getD (fit3Ext big ln1m lo hi logd (pssOf lobs ks md.mfss) md.ext).2.2.2 [])
+          (md.mfss.getD (fit3Ext big ln1m lo hi logd (pssOf lobs ks md.mfss) md.ext).2.2.2 []) := by
+    unfold predictedRow3Ext
+    simp only [fit3Ext_eq]
+  rw [hpredeq]
+  simp only [fit3Ext_eq]
+  generalize hbb : argminFirstEF (maskChi (fit3PerDist big ln1m lo hi (pssOf lobs ks md.mfss)) md.ext) = bb at hbi hbc
+  obtain ⟨bi, bc⟩ := bb
+  simp only at hbi hbc ⊢
+  let mf := md.mfss[bi]
+  have hmf : md.mfss[bi]? = some mf := List.getElem?_eq_getElem hbi
+  have hmflen : mf.length = lobs.length := hlen mf (List.getElem_mem hbi)
+  have hsc : logd[bi]? = some (logd[bi]'(by omega)) := List.getElem?_eq_getElem (by omega)
+  have hpss : (pssOf lobs ks md.mfss)[bi]? = some (mkPts lobs mf ks) := by
+    simp [pssOf, List.getElem?_map, hmf]
+  have hperbi : (fit3PerDist big ln1m lo hi (pssOf lobs ks md.mfss))[bi]?
+      = some (clipAv lo hi (optAv (mkPts lobs mf ks)),
+              chi2 big ln1m (clipAv lo hi (optAv (mkPts lobs mf ks))) 0 (mkPts lobs mf ks)) := by
+    simp [fit3PerDist, List.getElem?_map, hpss]
+  have hav : ((fit3PerDist big ln1m lo hi (pssOf lobs ks md.mfss)).getD bi (0, 0)).1
+      = clipAv lo hi (optAv (mkPts lobs mf ks)) := by
+    simp [List.getD_eq_getElem?_getD, hperbi]
+  have hpssD : (pssOf lobs ks md.mfss).getD bi [] = mkPts lobs mf ks := by
+    simp [List.getD_eq_getElem?_getD, hpss]
+  have hmfD : md.mfss.getD bi [] = mf := by
+    simp [List.getD_eq_getElem?_getD, hmf]
+  have hchi : bc = (if md.ext.getD bi false then EF.pinf
+      else EF.fin (chi2 big ln1m (clipAv lo hi (optAv (mkPts lobs mf ks))) 0 (mkPts lobs mf ks))) := by
+    have : (maskChi (fit3PerDist big ln1m lo hi (pssOf lobs ks md.mfss)) md.ext)[bi]?
+        = some (if md.ext.getD bi false then EF.pinf
+            else EF.fin (chi2 big ln1m (clipAv lo hi (optAv (mkPts lobs mf ks))) 0 (mkPts lobs mf ks))) := by
+      simp [maskChi, List.getElem?_mapIdx, hperbi]
+    rw [this] at hbc
+    exact (Option.some.inj hbc).symm
+  have hpl : (mkPts lobs mf ks).length = lobs.length := mkPts_length lobs mf ks hmflen hks
+  have helem : ∀ (j : Nat) (f k : K), mf[j]? = some f → ks[j]? = some k →
+      (predicted2 (clipAv lo hi (optAv (mkPts lobs mf ks))) 0 (mkPts lobs mf ks) mf)[j]?
+        = some (f + clipAv lo hi (optAv (mkPts lobs mf ks)) * k) := by
+    intro j f k hf hk
+    have hj : j < lobs.length := by
+      have := (List.getElem?_eq_some_iff.mp hf).1
+      omega
+    obtain ⟨p, hp, hpk, _⟩ := mkPts_getElem? lobs mf ks j lobs[j] f k (List.getElem?_eq_getElem hj) hf hk
+    rw [predicted2_getElem? _ _ _ _ j p f hp hf, hpk]
+    congr 1; ring
+  refine ⟨mf, logd[bi]'(by omega), hbi, hmf, hsc, ?_, hav, ?_, ?_, ?_, ?_⟩
+  · simp [List.getD_eq_getElem?_getD, hsc]
+  · exact hchi
+  · rw [hav, hpssD, hmfD, predicted2_length _ _ _ _ (by rw [hpl, hmflen]), hpl]
+  · intro j f k hf hk
+    rw [hav, hpssD, hmfD]
+    exact helem j f k hf hk
+  · intro lg hmul j f0 d k hf0 hd hscd hf hk
+    rw [hav, hpssD, hmfD, helem j _ k hf hk]
+    have h1 : lg 1 = 0 := by
+      have := hmul 1 1 one_pos one_pos
+      rw [mul_one] at this
+      linarith
+    have hinv : lg (1 / d) = - lg d := by
+      have := hmul d (1 / d) hd (by positivity)
+      rw [mul_one_div_cancel (ne_of_gt hd), h1] at this
+      linarith
+    have hexp : lg (f0 * ((1 / d) * (1 / d))) = lg f0 - 2 * lg d := by
+      rw [hmul f0 _ hf0 (by positivity), hmul (1 / d) (1 / d) (by positivity) (by positivity), hinv]
+      ring
+    have hscv : logd.getD bi 0 = lg d := by
+      rw [← hscd]; simp [List.getD_eq_getElem?_getD, hsc]
+    rw [hexp, hscv]
+    congr 1; ring
+
+/-- without mask (`remove_resolved` off) `fit3Ext` is `fit3` of C02, its chi² finite -/
+theorem C04_fit3Ext_nomask (big : K) (ln1m : K → K) (lo hi : K) (logd : List K)
+    (pss : List (List (Pt K))) (hne : pss ≠ []) :
+    (fit3Ext big ln1m lo hi logd pss []).1 = (fit3 big ln1m lo hi logd pss).1 ∧
+    (fit3Ext big ln1m lo hi logd pss []).2.1 = (fit3 big ln1m lo hi logd pss).2.1 ∧
+    (fit3Ext big ln1m lo hi logd pss []).2.2.1 = EF.fin (fit3 big ln1m lo hi logd pss).2.2.1 ∧
+    (fit3Ext big ln1m lo hi logd pss []).2.2.2 = (fit3 big ln1m lo hi logd pss).2.2.2 := by
+  have key : argminFirstEF (maskChi (fit3PerDist big ln1m lo hi pss) [])
+      = ((argminFirst ((fit3PerDist big ln1m lo hi pss).map (·.2))).1,
+         EF.fin (argminFirst ((fit3PerDist big ln1m lo hi pss).map (·.2))).2) := by
+    rw [maskChi_nil]
+    cases h : (fit3PerDist big ln1m lo hi pss).map (·.2) with
+    | nil =>
+      have := congrArg List.length h
+      simp [fit3PerDist] at this
+      exact absurd this hne
+    | cons x xs =>
+      simp only [List.map_cons, argminFirstEF, argminFirst]
+      exact argminFirstEFAux_fin xs 1 0 x
+  rw [fit3Ext_eq, key]
+  rcases h : argminFirst ((fit3PerDist big ln1m lo hi pss).map (·.2)) with ⟨bi, bc⟩
+  simp only [fit3, h, and_self]
+
+/-- **C04 (end to end, distance-dependent mode).** The result `Models.fit` returns in the `ndim == 3`
+    branch lists every model once (`model_id` a permutation), ranked in numpy order (resolved models,
+    chi² = `+inf`, after all finite ones), and row `i` names a model `m = model_id[i]` and carries that
+    model's own `fit3Ext` result — `A_V`, `logd[best]`, chi² — and its own predicted row. -/
+theorem C04_fit_rows3 (big : K) (ln1m : K → K) (lo hi : K) (logd : List K) (lobs : List (LogObs K))
+    (ks : List K) (models : List (ModelRow3 K)) :
+    let out := fitRows3 big ln1m lo hi logd lobs ks models
+    out.modelId.Perm (List.range models.length) ∧
+    out.chi2.Pairwise (fun a b => EF.leSort a b = true) ∧
+    ∀ i, i < models.length → ∃ m md, out.modelId[i]? = some m ∧ models[m]? = some md ∧
+      rowAt out i = some
+        { av := (fit3Ext big ln1m lo hi logd (pssOf lobs ks md.mfss) md.ext).1
+          sc := (fit3Ext big ln1m lo hi logd (pssOf lobs ks md.mfss) md.ext).2.1
+          chi2 := (fit3Ext big ln1m lo hi logd (pssOf lobs ks md.mfss) md.ext).2.2.1
+          name := md.name
+          flux := some (predictedRow3Ext big ln1m lo hi lobs ks md) } := by
+  intro out
+  let x := fitRowsUnsorted3 big ln1m lo hi logd lobs ks models
+  have hn : x.chi2.length = models.length := by simp [x, fitRowsUnsorted3]
+  have hwf : WFRows x := by
+    refine ⟨by simp [x, fitRowsUnsorted3], by simp [x, fitRowsUnsorted3], by simp [x, fitRowsUnsorted3], ?_⟩
+    intro fl hfl
+    simp [x, fitRowsUnsorted3] at hfl
+    subst hfl
+    simp [x, fitRowsUnsorted3]
+  refine ⟨?_, (C04_sorted x).1, ?_⟩
+  · have := (C04_perm x hwf).1
+    rwa [hn] at this
+  · intro i hidx
+    obtain ⟨m, hm, hid, _, hrow, _⟩ := C04_rows x hwf i (by omega)
+    have hm' : m < models.length := by omega
+    refine ⟨m, models[m], hid, List.getElem?_eq_getElem hm', ?_⟩
+    show rowAt (sortRows x) i = _
+    rw [hrow]
+    simp [rowAt, x, fitRowsUnsorted3, List.getElem?_eq_getElem hm']
+
 /-! ### Non-vacuity -/
 
 /-- a chi² vector with a tie, an infinity and a NaN in the middle -/
@@ -226,5 +444,15 @@ example : ¬ exRowsC04.chi2.Pairwise (fun a b => EF.leSort a b = true) := by dec
 
 example : (sortRows exRowsC04).modelId.Nodup ∧ (sortRows exRowsC04).name.Perm ["a", "b", "c", "d", "e"] :=
   ⟨(C04_perm exRowsC04 (by simp [WFRows, exRowsC04])).2.1, (C04_perm exRowsC04 (by simp [WFRows, exRowsC04])).2.2.1⟩
+
+/-- a model tabulated at two trial distances in two bands, resolved at the first distance -/
+def exModel3C04 : ModelRow3 Rat := { name := "m", mfss := [[1, 2], [3, 4]], ext := [true, false] }
+
+example : WFModel3 [⟨1, 0, 1, 4⟩, ⟨1, 1, 1, 4⟩] [-1/2, -1/5] exModel3C04 := by
+  simp [WFModel3, exModel3C04]
+
+/-- the mask sends `np.argmin` to the second distance although nothing is known about the first -/
+example : (fit3Ext (10 : Rat) (fun _ => 0) 0 5 [0, 1] (pssOf [⟨1, 0, 1, 4⟩, ⟨1, 1, 1, 4⟩] [-1/2, -1/5]
+    exModel3C04.mfss) exModel3C04.ext).2.2.2 = 1 := by decide +kernel
 
 end SF
